@@ -29,6 +29,14 @@ INLANG += [("mixed-view:root-is-not-?root:raw-unit-cooked", "raw unit cooked roo
            ("mixed-view:root-is-not-?root:entry-raw", "entry raw !(root ?root)"),
            ("mixed-view:child-has-other-parent:raw-entry-cooked", "raw entry cooked (|D| D child ?(parent != D))"),
            ("mixed-view:root-is-not-?root:unit-root-raw-cooked", "unit root raw cooked !root")]
+# DIEs and units asked about in another order than the stored one (caches are filled by whoever comes first)
+INLANG += [("reverse:root-is-not-?root", "(|Dw| [Dw entry] relem !(root ?root))"),
+           ("reverse:unit-root-is-not-?root", "(|Dw| [Dw unit] relem root !root)"),
+           ("reverse:raw-root-is-not-?root", "(|Dw| [Dw raw entry] relem !(root ?root))"),
+           ("reverse:parent-chain-end-is-not-?root", "(|Dw| [Dw entry] relem (parent* !(parent)) !root)"),
+           # `unit` of a DIE is exactly one of the units the raw view lists (main and supplementary file alike)
+           ("unit-of-DIE-equals-not-exactly-one-raw-unit", "(|Dw| Dw entry (|D| ([Dw raw unit ?(== D unit)] length != 1)))"),
+           ("unit-of-raw-DIE-equals-not-exactly-one-raw-unit", "(|Dw| Dw raw entry (|D| ([Dw raw unit ?(== D unit)] length != 1)))")]
 INLANG_HOLD = [("unit-entry-differs-from-entry", "(|Dw| ?([Dw unit entry] == [Dw entry]))"),
                ("unit-root-child*-differs-from-unit-entry-count", "(|Dw| ?([Dw unit (|U| [U entry] length)] == [Dw unit (|U| [U root child*] length)]))")]
 
